@@ -20,6 +20,9 @@ pub struct BufCfg {
     pub pre_len: u16,
     /// Some(n): the whole view is capped at n bytes
     pub cap_at: Option<u16>,
+    /// Some(m): a second cap stacked on the first (`x.cap_at(n).cap_at(m)`): the tighter one wins
+    #[serde(default)]
+    pub cap_at2: Option<u16>,
 }
 
 #[derive(Clone, Debug, Serialize, Deserialize, PartialEq)]
@@ -27,10 +30,14 @@ pub struct BufCfg {
 pub enum BufOp {
     Write { len: u16, salt: u32 },
     Extend { len: u16, salt: u32 },
+    /// extend from an iterator whose size_hint upper bound is loose (a filter): only the yielded bytes count
+    ExtendLoose { len: u16, salt: u32 },
+    /// inside a view: create the intermediate of a nested (optionally capped) view and drop it unused
+    NestedDropUnused { cap_at: Option<u16> },
     /// one `read_buffer` call from a reader: fault 0 none, 1 short read, 2 zero-length read, 3 EINTR, 4 hard error
     Read { avail: u16, fault: u8, salt: u32 },
     /// the following `n` ops run inside a nested view (optionally capped)
-    Nested { n: u8, cap_at: Option<u16> },
+    Nested { n: u8, cap_at: Option<u16>, #[serde(default)] cap_at2: Option<u16> },
     /// a `?`-style early exit: the closure returns right after a failed write of `len` bytes
     FailAndExit { len: u16 },
     /// end the current view here and open a new one on the same container
@@ -118,7 +125,7 @@ impl<'a> Run<'a> {
             self.pos += 1;
             limit -= 1;
             let remaining_before = capacity - model.len();
-            self.trace = mix(self.trace, remaining_before as u64 * 16 + depth as u64, match &op { BufOp::Write { len, .. } => 100 + *len as u64, BufOp::Extend { len, .. } => 10_000 + *len as u64, BufOp::Read { avail, fault, .. } => 100_000 + (*avail as u64) * 8 + *fault as u64, BufOp::Nested { n, cap_at } => 1_000_000 + (*n as u64) * 70_000 + cap_at.map(|c| c as u64 + 1).unwrap_or(0), BufOp::FailAndExit { .. } => 3, _ => 4 });
+            self.trace = mix(self.trace, remaining_before as u64 * 16 + depth as u64, match &op { BufOp::Write { len, .. } => 100 + *len as u64, BufOp::Extend { len, .. } => 10_000 + *len as u64, BufOp::Read { avail, fault, .. } => 100_000 + (*avail as u64) * 8 + *fault as u64, BufOp::Nested { n, cap_at, cap_at2 } => 1_000_000 + (*n as u64) * 70_000 + cap_at.map(|c| c as u64 + 1).unwrap_or(0) + cap_at2.map(|c| (c as u64 + 1) * 7).unwrap_or(0), BufOp::ExtendLoose { len, .. } => 5_000_000 + *len as u64, BufOp::NestedDropUnused { cap_at } => 6_000_000 + cap_at.map(|c| c as u64 + 1).unwrap_or(0), BufOp::FailAndExit { .. } => 3, _ => 4 });
             if b.remaining() != remaining_before {
                 self.viol = Some(v("remaining-wrong", &[], format!("remaining() = {} but capacity {} - {} written = {}", b.remaining(), capacity, model.len(), remaining_before)));
                 return;
@@ -194,20 +201,70 @@ impl<'a> Run<'a> {
                         }
                     }
                 }
-                BufOp::Nested { n, cap_at } => {
+                BufOp::ExtendLoose { len, salt } => {
+                    let data = bytes(self.cfg.seed, salt, len as usize);
+                    let kept: Vec<u8> = data.iter().cloned().filter(|b| b % 3 != 0).collect();
+                    let r = b.extend(data.iter().cloned().filter(|b| b % 3 != 0));
+                    let now = capacity - b.remaining();
+                    match r {
+                        Ok(()) => {
+                            if kept.len() > remaining_before {
+                                self.viol = Some(v("overflow-accepted", &[("call", "extend-filter")], format!("extending by {} bytes into {} remaining returned Ok", kept.len(), remaining_before)));
+                                return;
+                            }
+                            if now != model.len() + kept.len() {
+                                self.viol = Some(v("count-wrong", &[("call", "extend-filter")], format!("after an extend from a filtering iterator that yielded {} bytes (upper bound {}) the view counts {} initialized, expected {}", kept.len(), data.len(), now, model.len() + kept.len())));
+                                return;
+                            }
+                            model.extend_from_slice(&kept);
+                            self.stats.writes_ok += 1;
+                        }
+                        Err(CapacityError) => {
+                            if kept.len() <= remaining_before {
+                                self.viol = Some(v("fitting-write-refused", &[("call", "extend-filter")], format!("extending by {} bytes into {} remaining returned CapacityError", kept.len(), remaining_before)));
+                                return;
+                            }
+                            if now > capacity || now < model.len() {
+                                self.viol = Some(v("count-wrong", &[("call", "refused-write")], format!("count {} after refused extend (capacity {})", now, capacity)));
+                                return;
+                            }
+                            let p = now - model.len();
+                            model.extend_from_slice(&kept[..p]);
+                            self.stats.writes_refused += 1;
+                        }
+                    }
+                }
+                BufOp::NestedDropUnused { cap_at } => {
+                    {
+                        use libtw2_buffer::Buffer as _;
+                        match cap_at {
+                            Some(c) => drop((&mut *b).cap_at(c as usize).to_to_buffer_ref()),
+                            None => drop((&mut *b).to_to_buffer_ref()),
+                        }
+                    }
+                    let now = capacity - b.remaining();
+                    if now != model.len() {
+                        self.viol = Some(v("unused-view-changed-container", &[("store", "nested")], format!("dropping an unused nested view changed the parent's initialized count from {} to {}", model.len(), now)));
+                        return;
+                    }
                     self.stats.nested += 1;
+                }
+                BufOp::Nested { n, cap_at, cap_at2 } => {
+                    self.stats.nested += 1;
+                    let cap_at2 = if cap_at.is_some() { cap_at2 } else { None };
                     let inner_cap = match cap_at {
                         Some(c) => {
                             self.stats.capped += 1;
-                            (c as usize).min(remaining_before)
+                            (c as usize).min(remaining_before).min(cap_at2.map(|c| c as usize).unwrap_or(usize::MAX))
                         }
                         None => remaining_before,
                     };
                     let mut inner_model: Vec<u8> = Vec::new();
                     let n = n as usize;
-                    match cap_at {
-                        Some(c) => with_buffer((&mut *b).cap_at(c as usize), |mut ib| self.in_view(&mut ib, inner_cap, &mut inner_model, n, depth + 1)),
-                        None => with_buffer(&mut *b, |mut ib| self.in_view(&mut ib, inner_cap, &mut inner_model, n, depth + 1)),
+                    match (cap_at, cap_at2) {
+                        (Some(c), Some(c2)) => with_buffer((&mut *b).cap_at(c as usize).cap_at(c2 as usize), |mut ib| self.in_view(&mut ib, inner_cap, &mut inner_model, n, depth + 1)),
+                        (Some(c), None) => with_buffer((&mut *b).cap_at(c as usize), |mut ib| self.in_view(&mut ib, inner_cap, &mut inner_model, n, depth + 1)),
+                        _ => with_buffer(&mut *b, |mut ib| self.in_view(&mut ib, inner_cap, &mut inner_model, n, depth + 1)),
                     }
                     if self.viol.is_some() {
                         return;
@@ -288,13 +345,19 @@ impl BufEngine {
                         run.pos += 1;
                     }
                     let remaining: usize = $remaining(&$container);
+                    let cap2 = if cfg.cap_at.is_some() { cfg.cap_at2 } else { None };
                     let view_cap = match cfg.cap_at {
-                        Some(c) => (c as usize).min(remaining),
+                        Some(c) => (c as usize).min(remaining).min(cap2.map(|c| c as usize).unwrap_or(usize::MAX)),
                         None => remaining,
                     };
                     let mut model: Vec<u8> = Vec::new();
                     run.exit = false;
                     match cfg.cap_at {
+                        Some(c) if cap2.is_some() => with_buffer($mk(&mut $container).cap_at(c as usize).cap_at(cap2.unwrap() as usize), |mut b| {
+                            run.in_view(&mut b, view_cap, &mut model, usize::MAX, 0);
+                            let got = b.initialized().to_vec();
+                            run.check_initialized(&got, &model);
+                        }),
                         Some(c) => with_buffer($mk(&mut $container).cap_at(c as usize), |mut b| {
                             run.in_view(&mut b, view_cap, &mut model, usize::MAX, 0);
                             let got = b.initialized().to_vec();
@@ -438,7 +501,13 @@ impl Engine for BufEngine {
         } else {
             None
         };
-        let cfg = BufCfg { seed: c.next_u64(), store, capacity, pre_len, cap_at };
+        let cap_at2 = if cap_at.is_some() && store <= 3 && c.chance(1, 3) {
+            let a = cap_at.unwrap();
+            Some(*c.pick(&[0u16, a, a.saturating_add(1), a.saturating_sub(1), a.saturating_add(50), a / 2]))
+        } else {
+            None
+        };
+        let cfg = BufCfg { seed: c.next_u64(), store, capacity, pre_len, cap_at, cap_at2 };
         let rem = (capacity - pre_len) as u64;
         let n = c.range(1, 14);
         let mut ops = Vec::new();
@@ -454,11 +523,17 @@ impl Engine for BufEngine {
             }
         };
         for _ in 0..n {
-            match s.weighted(&[5, 4, 6, 3, 1, 2, 1]) {
+            match s.weighted(&[5, 4, 6, 3, 1, 2, 1, 3, 1]) {
                 0 => ops.push(BufOp::Write { len: lens(&mut s), salt: s.next_u64() as u32 }),
                 1 => ops.push(BufOp::Extend { len: lens(&mut s), salt: s.next_u64() as u32 }),
                 2 => ops.push(BufOp::Read { avail: lens(&mut s).saturating_add(s.below(5) as u16), fault: *s.pick(&[0u8, 0, 1, 1, 2, 3, 4]), salt: s.next_u64() as u32 }),
-                3 => ops.push(BufOp::Nested { n: s.range(0, 4) as u8, cap_at: if s.chance(1, 2) { Some(lens(&mut s)) } else { None } }),
+                3 => {
+                    let cap_at = if s.chance(1, 2) { Some(lens(&mut s)) } else { None };
+                    let cap_at2 = if cap_at.is_some() && s.chance(1, 3) { Some(lens(&mut s)) } else { None };
+                    ops.push(BufOp::Nested { n: s.range(0, 4) as u8, cap_at, cap_at2 });
+                }
+                7 => ops.push(BufOp::ExtendLoose { len: lens(&mut s).saturating_add(s.below(8) as u16), salt: s.next_u64() as u32 }),
+                8 => ops.push(BufOp::NestedDropUnused { cap_at: if s.chance(1, 2) { Some(lens(&mut s)) } else { None } }),
                 4 => ops.push(BufOp::FailAndExit { len: s.range(0, 10) as u16 }),
                 5 => ops.push(BufOp::Reopen),
                 _ => ops.push(BufOp::DropUnused),
@@ -501,14 +576,17 @@ impl Engine for BufEngine {
             BufOp::Write { len, salt } if len > 0 => vec![BufOp::Write { len: len - 1, salt }, BufOp::Write { len: 0, salt }],
             BufOp::Extend { len, salt } if len > 0 => vec![BufOp::Extend { len: len - 1, salt }],
             BufOp::Read { avail, fault, salt } if fault != 0 => vec![BufOp::Read { avail, fault: 0, salt }],
-            BufOp::Nested { n, cap_at: Some(_) } => vec![BufOp::Nested { n, cap_at: None }],
+            BufOp::Nested { n, cap_at: Some(_), .. } => vec![BufOp::Nested { n, cap_at: None, cap_at2: None }],
             _ => vec![],
         }
     }
     fn simplify_cfg(&self, cfg: &BufCfg) -> Vec<BufCfg> {
         let mut v = Vec::new();
+        if cfg.cap_at2.is_some() {
+            v.push(BufCfg { cap_at2: None, ..cfg.clone() });
+        }
         if cfg.cap_at.is_some() {
-            v.push(BufCfg { cap_at: None, ..cfg.clone() });
+            v.push(BufCfg { cap_at: None, cap_at2: None, ..cfg.clone() });
         }
         if cfg.pre_len > 0 && cfg.pre_len != cfg.capacity {
             v.push(BufCfg { pre_len: 0, ..cfg.clone() });
